@@ -169,8 +169,15 @@ func (p *Program) impliedBy(k Cond) []Cond {
 		if _, isConst := v.(*ssa.Const); isConst {
 			return nil
 		}
-		if _, isPhi := v.(*ssa.Phi); isPhi {
-			return nil // && / || : no single atom
+		if ph, isPhi := v.(*ssa.Phi); isPhi {
+			// `return a && b` / `a || b`: what the wanted outcome implies inside the helper, in the caller's terms
+			var out []Cond
+			if isBool(ph.Type()) {
+				for _, c := range p.impliedByBoolPhi(ph, k.Pol) {
+					out = append(out, sub(c, false))
+				}
+			}
+			return out
 		}
 		c := p.condOf(v, true)
 		return []Cond{sub(c, !k.Pol)}
@@ -483,6 +490,9 @@ func (p *Program) BoolResult(pa *Path, idx int) (string, []Cond) {
 type mustOpts struct {
 	start        ssa.Instruction // start after this instruction (nil: function entry)
 	skipErrEdges bool            // do not follow the true edge of `err != nil`
+	// errReturnsCount: with skipErrEdges, a return of a freshly built / sentinel error is still an exit
+	// that counts (resource pairing: a handle must be released before such a return too)
+	errReturnsCount bool
 	stopAt       func(ssa.Instruction) bool
 	panicIsExit  bool                                      // treat panic blocks as exits too (default: only returns)
 	skipEdge     func(b *ssa.BasicBlock, succIdx int) bool // do not follow these edges
@@ -593,7 +603,7 @@ func (p *Program) EscapesWithout(fn *ssa.Function, hit func(ssa.Instruction) boo
 			}
 			switch t := in.(type) {
 			case *ssa.Return:
-				if o.skipErrEdges && len(t.Results) > 0 && definitelyError(RetVal(t, len(t.Results)-1)) {
+				if o.skipErrEdges && !o.errReturnsCount && len(t.Results) > 0 && definitelyError(RetVal(t, len(t.Results)-1)) {
 					stopped = true // an error exit: the return of an error constructed on the spot or of a sentinel
 					break
 				}
